@@ -64,9 +64,10 @@ int cmd_any(string arg) {
   return 1;
 }
 
-void set_terminal_type(string t) { rec("TT " + me() + " " + t); }
+string hx(string s) { string r; int i; r = "-"; for (i = 0; i < strlen(s); i++) r += sprintf("%02x", s[i] & 255); return r; }
+void set_terminal_type(string t) { rec("TT " + me() + " " + hx(t)); }
 void set_window_size(int w, int h) { rec("WS " + me() + " " + w + " " + h); }
-void telnet_suboption(string t) { rec("SUBOPT " + me() + " " + strlen(t)); }
+void telnet_suboption(string t) { rec("SUBOPT " + me() + " " + hx(t)); }
 
 void net_dead() {
   rec("NETDEAD " + me());
